@@ -114,7 +114,7 @@ namespace
     std::vector<double> dips;      // n+1 values for n segments (continuous dip)
     std::vector<double> kink;      // if not empty: explicit (top, bottom) dip per segment, 2n values (dip may jump between segments)
     std::vector<double> lengths;
-    int shape = 0;                 // 0: thickness 100 km, no truncation; 1: thickness [100,60] km per segment; 2: top truncation +10 km; 3: top truncation -10 km and thinning; 4: top truncation +70 km (faults get the truncation entries as well)
+    int shape = 0;                 // 0: thickness 100 km, no truncation; 1: thickness [100,60] km per segment; 2: top truncation +10 km; 3: top truncation -10 km and thinning; 4: top truncation +70 km (faults get the truncation entries as well); 5: top truncation decreasing down dip from 50 km to 0
     double min_depth = 0, max_depth = -1;
     double dip_point_distance = -1;   // > 0: the dip point lies this far from the trench (above the feature itself) instead of far away; it only names the side
   };
@@ -133,7 +133,8 @@ namespace
         if (c.shape == 1 || c.shape == 3) { g.thick0 = 1e5 - 4e4 * i / n; g.thick1 = 1e5 - 4e4 * (i + 1) / n; }
         if (c.shape == 2) { g.trunc0 = 1e4; g.trunc1 = 1e4; }
         if (c.shape == 3) { g.trunc0 = -1e4 + 5e3 * i; g.trunc1 = -1e4 + 5e3 * (i + 1); }
-        if (c.shape == 4) { g.trunc0 = 7e4; g.trunc1 = 7e4; }   // more than half of the thickness (a fault is centred on its plane: its membership does not look at the truncation at all)
+        if (c.shape == 4) { g.trunc0 = 7e4; g.trunc1 = 7e4; }
+        if (c.shape == 5) { g.trunc0 = 5e4 * (1.0 - static_cast<double>(i) / n); g.trunc1 = 5e4 * (1.0 - static_cast<double>(i + 1) / n); }   // a truncation that decreases down dip (50 km at the trench, none at the tip)   // more than half of the thickness (a fault is centred on its plane: its membership does not look at the truncation at all)
         t.push_back(g);
       }
     return t;
@@ -193,6 +194,21 @@ namespace
     std::unique_ptr<World> w;
     try { w = make_world(text); }
     catch (const std::exception &e) { ctx.violation("C06/world-rejected", JObj().str("what", std::string(e.what()).substr(0, 400)).raw("config", describe(c)).str("world", text).done()); return; }
+    // every fourth configuration: a second world in which another feature is listed before "F" (a small mantle layer far away, which changes no answer);
+    // the named-feature query is asked of the two worlds in turn, so that anything it remembers about where "F" sits in a list is stale
+    std::unique_ptr<World> w2;
+    if (idx % 4 == 0)
+      {
+        const std::string marker = "\"features\":[";
+        const size_t at = text.find(marker);
+        if (at != std::string::npos)
+          {
+            std::string t2 = text;
+            const double s2 = c.spherical ? 1.0 : 1e5;
+            t2.insert(at + marker.size(), "{\"model\":\"mantle layer\",\"name\":\"Z\",\"min depth\":6e5,\"max depth\":6.1e5,\"coordinates\":[[" + num(60*s2) + "," + num(60*s2) + "],[" + num(61*s2) + "," + num(60*s2) + "],[" + num(61*s2) + "," + num(61*s2) + "],[" + num(60*s2) + "," + num(61*s2) + "]]},");
+            try { w2 = make_world(t2, 1, "w2"); } catch (const std::exception &) { w2.reset(); }
+          }
+      }
     const double total = static_cast<double>(curve.total);
     const double tol = 1e-6 * total;
     uint64_t inside_count = 0, probe_counter = 0;
@@ -222,6 +238,14 @@ namespace
             try { pd = w->distance_to_plane(p, depth, "F"); }
             catch (const std::exception &e) { ctx.violation("C06/distance-to-plane-throws", JObj().str("what", std::string(e.what()).substr(0, 300)).raw("config", describe(c)).raw("point", jarr(p)).num("depth", depth).str("world", text).done()); return; }
             const double dfrom = pd.get_distance_from_surface(), dalong = pd.get_distance_along_surface();
+            if (w2)
+              {
+                bool same = false; std::string what2;
+                try { const auto q2 = w2->distance_to_plane(p, depth, "F"); same = biteq(q2.get_distance_from_surface(), dfrom) && biteq(q2.get_distance_along_surface(), dalong); }
+                catch (const std::exception &e) { what2 = std::string(e.what()).substr(0, 200); }
+                if (!same)
+                  { ctx.violation("C06/" + std::string(c.fault ? "fault" : "subducting plate") + "/distance-to-plane-differs-in-a-world-that-lists-another-feature-first", JObj().str("what", "distance_to_plane(\"F\") asked of two worlds in turn: the world with a far-away mantle layer listed before F answers differently (or throws: " + what2 + ")").raw("config", describe(c)).raw("point", jarr(p)).num("depth", depth).str("world", text).done()); return; }
+              }
             const bool foot_on_trench = t >= 0 && t <= 1;
             auto detail = [&](const std::string &what)
             {
@@ -262,6 +286,13 @@ namespace
                 margin = static_cast<double>(std::min(fabsl(ft.g_start), fabsl(ft.g_end)));
                 // past the start and before the tip, yet no foot: the wedge on the convex side of a dip jump, where the statement does not say which segment counts
                 if (ft.g_start > 0 && ft.g_end < 0) decided = false;
+                // the library reports a foot exactly where two segments join (the reference, in long double, can miss a foot that lies on the joint itself
+                // when its parameter falls a rounding error outside of both segments): on the joint nothing is claimed
+                if (std::isfinite(dalong))
+                  {
+                    double joint = 0;
+                    for (size_t j = 0; j + 1 < tab.size(); ++j) { joint += tab[j].length; if (std::fabs(dalong - joint) < 10 * tol) decided = false; }
+                  }
               }
             else if (!ft.ambiguous)
               {
@@ -306,7 +337,7 @@ namespace
     for (int fault = 0; fault < 2; ++fault)
       {
         // one segment: every (dip0, dip1), every direction and side, every shape
-        for (double d0 : dips) for (double d1 : dips) for (int shape = 0; shape < 5; ++shape)
+        for (double d0 : dips) for (double d1 : dips) for (int shape = 0; shape < 6; ++shape)
               {
                 Config c; c.fault = fault; c.dips = {d0, d1}; c.lengths = {1e5}; c.shape = shape;
                 add(c, th || shape == 0);
@@ -314,9 +345,9 @@ namespace
         // two segments, continuous dip
         for (double d0 : dips) for (double d1 : dips) for (double d2 : dips) for (int lv = 0; lv < 2; ++lv)
                 {
-                  Config c; c.fault = fault; c.dips = {d0, d1, d2}; c.lengths = lv ? std::vector<double>{1e5, 0.5e5} : std::vector<double>{1e5, 1e5}; c.shape = (rr % 5);
+                  Config c; c.fault = fault; c.dips = {d0, d1, d2}; c.lengths = lv ? std::vector<double>{1e5, 0.5e5} : std::vector<double>{1e5, 1e5}; c.shape = (rr % 6);
                   add(c, false);
-                  if (th) for (int shape = 0; shape < 5; ++shape) { c.shape = shape; add(c, false); }
+                  if (th) for (int shape = 0; shape < 6; ++shape) { c.shape = shape; add(c, false); }
                 }
         // two segments with a dip jump between them (concave and convex kinks), straight and arc pieces
         for (double d0 : dips) for (double d1 : dips)
@@ -353,7 +384,7 @@ namespace
         if (th)
           for (double d0 : dips) for (double d1 : dips) for (double d2 : dips) for (double d3 : dips)
                   {
-                    Config c; c.fault = fault; c.dips = {d0, d1, d2, d3}; c.lengths = {0.5e5, 1e5, 0.5e5}; c.shape = (rr % 5);
+                    Config c; c.fault = fault; c.dips = {d0, d1, d2, d3}; c.lengths = {0.5e5, 1e5, 0.5e5}; c.shape = (rr % 6);
                     add(c, false);
                   }
       }
